@@ -35,6 +35,7 @@ import _ "unsafe"
 // When off, behaviour is exactly the stock runtime's.
 
 var verifMapOn bool
+var verifQuiet bool // set when VERIFMAPSEED is in the environment: see the retake patch in proc.go
 var verifMapState uint64
 var verifMapDraws uint64
 
@@ -71,6 +72,7 @@ func verifMapEnvInit() {
 	if !ok {
 		throw("VERIFMAPSEED: not an integer")
 	}
+	verifQuiet = true
 	verifMapSeed(uint64(n), true)
 }
 `
@@ -105,19 +107,32 @@ func main() {
 		"map_fast32.go":  {{"rand()", "verifMapRand()", 1}},
 		"map_fast64.go":  {{"rand()", "verifMapRand()", 1}},
 		"map_faststr.go": {{"rand()", "verifMapRand()", 1}},
+		// the background scavenger is never woken in simulation: a runnable background goroutine makes
+		// sysmon hand over the P of a slow system call after all (see proc.go), at a load-dependent moment
+		"mgcscavenge.go": {{"func (s *scavengerState) wake() {\n\tlock(&s.lock)\n", "func (s *scavengerState) wake() {\n\tif verifQuiet {\n\t\treturn\n\t}\n\tlock(&s.lock)\n", 1}},
 		"rand.go": {{"func rand32() uint32 {\n\treturn uint32(rand())\n}",
 			"func rand32() uint32 {\n\treturn uint32(verifMapRand())\n}", 1}},
 		"alg.go": {
 			{"hashkey[i] = uintptr(bootstrapRand())", "hashkey[i] = uintptr(0x9e3779b97f4a7c15*uint64(i+1) | 1)", 1},
 			{"key[i] = bootstrapRand()", "key[i] = 0xd1b54a32d192ed03*uint64(i+1) | 1", 1},
 		},
-		"proc.go": {{"\tgoenvs()\n", "\tgoenvs()\n\tverifMapEnvInit()\n", 1}},
+		"proc.go": {
+			{"\tgoenvs()\n", "\tgoenvs()\n\tverifMapEnvInit()\n", 1},
+			// sysmon neither preempts nor retakes the P of a system call while nothing else is runnable:
+			// otherwise the moment a slow system call gets its P handed to a freshly allocated M (heap and
+			// stack pages) depends on machine load and shifts every later heap address
+			{"\t\tpd := &pp.sysmontick\n\t\ts := pp.status\n\t\tsysretake := false\n",
+				"\t\tpd := &pp.sysmontick\n\t\ts := pp.status\n\t\tsysretake := false\n\t\tif verifQuiet && runqempty(pp) && sched.runqsize == 0 {\n\t\t\tcontinue\n\t\t}\n", 1},
+			// a P handed off with no work does not get a spinning M of its own: it simply goes idle
+			{"\tif sched.nmspinning.Load()+sched.npidle.Load() == 0 && sched.nmspinning.CompareAndSwap(0, 1) { // TODO: fast atomic\n",
+				"\tif !verifQuiet && sched.nmspinning.Load()+sched.npidle.Load() == 0 && sched.nmspinning.CompareAndSwap(0, 1) { // TODO: fast atomic\n", 1},
+		},
 	}
 	if err := os.MkdirAll(out, 0o755); err != nil {
 		die("%v", err)
 	}
 	replace := map[string]string{}
-	names := []string{"alg.go", "map.go", "map_fast32.go", "map_fast64.go", "map_faststr.go", "proc.go", "rand.go"}
+	names := []string{"alg.go", "map.go", "map_fast32.go", "map_fast64.go", "map_faststr.go", "mgcscavenge.go", "proc.go", "rand.go"}
 	for _, name := range names {
 		src := filepath.Join(rt, name)
 		data, err := os.ReadFile(src)
